@@ -569,6 +569,14 @@ theorem seq_flatMass (w : Atom → α) (parts : List (Residue α)) :
     (hillS symOf (joinStruct parts).atoms).flatMass w = (parts.map (·.struct.flatMass w)).sum := by
   rw [flatMass_hillS, wsum_atoms', joinStruct_flatMass]
 
+/-- atom counts of `natural_formula` (H[1] → H): every atom counted under its substitute -/
+theorem natural_counts (am : Atom → α) (s : Items α) (V c : α) (b : Atom) :
+    lookupD (molecule am s V c).natural.atoms b
+      = s.flatMass (fun a => if substAtom atomH1 atomH a = b then 1 else 0) := by
+  simp only [molecule, substH1]
+  rw [Items.atoms_lookup, cnt_hillS, total_eq_wsum,
+    wsum_replaceAll _ _ _ _ atomH1_ne_H (keysNodup_atoms s), wsum_atoms']
+
 theorem sequence_some (am : Atom → α) (t : Table α) (s : List Char) (m : Mol α)
     (h : sequence am t s = some m) :
     ∃ parts, lookupAll t (clean s) = some parts ∧
